@@ -44,6 +44,9 @@ type faultCase struct {
 	// file (the same io.EOF every time), "timeout" = a fresh i/o timeout error each time
 	// (as os.File and net.Conn produce), "mixed" = the two alternating
 	AfterEnd string `json:"after_script,omitempty"`
+	// the Config object was used before, by a handler, with this tolerance (-1 = not),
+	// and its fields were then set to the values above
+	UsedBeforeWithTolMs int `json:"config_used_before_with_tolerance_ms,omitempty"`
 	// unrelated settings of the same configuration: they must not matter
 	ReadTimeoutMs uint   `json:"read_timeout_ms,omitempty"`
 	SleepOpenMs   uint   `json:"sleep_after_failed_open_ms,omitempty"`
@@ -159,6 +162,13 @@ func (s *scriptReader) Read(p []byte) (int, error) {
 		s.noteFault()
 		return 0, faultErr(st.Fault)
 	}
+	if st.DelayMs > 0 {
+		// the source has nothing for a while, then the data (the read blocks)
+		s.steps[s.pos].DelayMs = 0
+		s.mu.Unlock()
+		time.Sleep(time.Duration(st.DelayMs) * time.Millisecond)
+		s.mu.Lock()
+	}
 	d := unhex(st.Data)
 	n := copy(p, d)
 	if n < len(d) {
@@ -186,6 +196,22 @@ func runFaultScript(k faultCase) faultObs {
 	sr := &scriptReader{steps: steps, afterKind: k.AfterEnd, tolerance: time.Duration(k.TimeoutMs) * time.Millisecond}
 	cfg := &jsonconfig.Config{WaitTimeOnEOFMilliseconds: k.WaitMs, TimeoutOnEOFMilliSeconds: k.TimeoutMs,
 		ReadTimeoutMilliSeconds: k.ReadTimeoutMs, SleepTimeAfterFailedOpenMilliSeconds: k.SleepOpenMs}
+	if k.UsedBeforeWithTolMs != 0 {
+		// the same Config object served an earlier session with another tolerance
+		before := uint(0)
+		if k.UsedBeforeWithTolMs > 0 {
+			before = uint(k.UsedBeforeWithTolMs)
+		}
+		cfg.TimeoutOnEOFMilliSeconds, cfg.WaitTimeOnEOFMilliseconds = before, 1
+		ch0 := make(chan handler.Message, 4)
+		fh0 := filehandler.New(ch0, cfg)
+		go func() {
+			for range ch0 {
+			}
+		}()
+		fh0.Handle(fixedStart, bufio.NewReader(&scriptReader{steps: []step{{Data: "d3"}, {Fault: "eof"}, {Fault: "other"}}}))
+		cfg.TimeoutOnEOFMilliSeconds, cfg.WaitTimeOnEOFMilliseconds = k.TimeoutMs, k.WaitMs
+	}
 	ch := make(chan handler.Message, 4)
 	fh := filehandler.New(ch, cfg)
 	var obs faultObs
@@ -465,6 +491,31 @@ func monC13(c *child.Ctx, replay json.RawMessage) {
 				}
 				c.Count("scripts_with_long_retry_pause", 1)
 				add(faultCase{Steps: mk(pos, fl), TimeoutMs: uint(cfg[1]), WaitMs: uint(cfg[0]), Tolerant: true, Note: fmt.Sprintf("%d fault(s) after byte %d, retry pause %d ms, tolerance %d ms", cfg[2], pos, cfg[0], cfg[1])}, inside[pos])
+			}
+		}
+		// a Config object that has been used before with the other kind of tolerance
+		{
+			pos := r.Range(0, len(data))
+			f := faultKinds[r.Intn(3)]
+			c.Count("scripts_with_a_reused_config", 2)
+			add(faultCase{Steps: mk(pos, []string{f}), TimeoutMs: tolMs, WaitMs: 1, Tolerant: true, UsedBeforeWithTolMs: -1, Note: fmt.Sprintf("single %s after byte %d; the Config was used before with tolerance zero", f, pos)}, inside[pos])
+			add(faultCase{Steps: mk(pos, []string{f}), TimeoutMs: 0, WaitMs: 0, StopAfter: pos, WantErrKind: f, UsedBeforeWithTolMs: 300, Note: fmt.Sprintf("zero tolerance, %s after byte %d; the Config was used before with a tolerance of 300 ms", f, pos)}, inside[pos])
+		}
+		// a second interruption that begins a little less than one tolerance after an
+		// earlier one that was resumed from (retry pause a quarter of the tolerance)
+		if si%2 == 1 || c.Thorough() {
+			p1 := r.Range(0, len(data)-1)
+			p2 := r.Range(p1+1, len(data))
+			for _, gap := range []int{220, 260, 300} {
+				st := chunked(data[:p1], chunk)
+				st = append(st, step{Fault: faultKinds[r.Intn(3)]})
+				mid := chunked(data[p1:p2], 4096)
+				mid[len(mid)-1].DelayMs = gap // first fault at 0, resumed at ~100, next interruption at ~100+gap
+				st = append(st, mid...)
+				st = append(st, step{Fault: faultKinds[r.Intn(3)]}, step{Fault: faultKinds[r.Intn(3)]})
+				st = append(st, chunked(data[p2:], chunk)...)
+				c.Count("scripts_with_a_second_interruption_soon_after_the_first", 1)
+				add(faultCase{Steps: st, TimeoutMs: 400, WaitMs: 100, Tolerant: true, Note: fmt.Sprintf("interruption after byte %d, resumed, %d ms of quiet, double interruption after byte %d (retry pause 100 ms, tolerance 400 ms)", p1, gap, p2)}, inside[p1] || inside[p2])
 			}
 		}
 		// two separate interruptions
